@@ -444,7 +444,8 @@ def _norm_text(v):
 
 
 def history_compare(rep, rule, key, world, prepare, earlier, later,
-                    setup=None, depth=6, label=None, where=None):
+                    setup=None, depth=6, label=None, where=None,
+                    effects=None):
     """What a call answers must not depend on the calls made before it.
 
     *prepare(interp)* -> the callable under test (a function, or a bound
@@ -485,9 +486,19 @@ def history_compare(rep, rule, key, world, prepare, earlier, later,
         return None
 
     def res(o):
+        seen = ''
+        if effects is not None:
+            # what the later call does to the outside world (effects after
+            # the mark; all of them when it runs alone)
+            evs = list(o.effects)
+            if ('history-mark',) in evs:
+                evs = evs[evs.index(('history-mark',)) + 1:]
+            seen = ' after %s' % [_norm_text(T('effect', *[
+                x if isinstance(x, (T, K, str)) else str(x)
+                for x in e])) for e in evs if effects(e)]
         if o.kind == 'raise':
-            return 'raise %s' % (o.exc_class,)
-        return 'return %s' % _norm_text(o.value)
+            return 'raise %s%s' % (o.exc_class, seen)
+        return 'return %s%s' % (_norm_text(o.value), seen)
     terms1 = set()
     for o in o1:
         terms1.update(_norm_text(t) for t, _b in o.assumptions)
